@@ -3,12 +3,7 @@
   text returns the same problem again"), for `Grid` / `Seq` over *flat* bases and for the six grid puzzles of the
   regenerated table.
 
-  * `FlatBase b`: `b` is `MultiDigit`, a flat leaf (`Dict`, `Spaces`, `HexInt`, `IntSpaces`, `YajilinClue`) or a `OneOf` of
-    flat leaves; `AccLeaf` / `AccItem`: the items such a base accepts, independently of position and neighbours.
-  * `closedBase b` (decidable): the padding value `IntSpaces` returns is accepted by some alternative, and when
-    `YajilinClue` is an alternative no embedded value of another alternative can be mistaken for a clue with a number.
-    Both conditions are necessary: e.g. `OneOf(YajilinClue, Spaces("^007", 'a'))` decodes `"a"` to `"^007"`, which
-    re-encodes as the clue `^7`.
+  * `FlatBase b`, `closedBase b`, `AccLeaf` / `AccItem`: defined in Spec/SerializerReenc.lean.
   * serve (`serAlts_total`, `multiDigitSer_digits`): on a `bool`-free list of accepted items the base serializer
     succeeds at every position, so the `Seq` loop does (`seqSerLoop_served`);
   * closure (`deAlts_closed`, `multiDigitDe_closed`): every decoded item is accepted and `bool`-free, and the `Seq`
@@ -19,86 +14,11 @@
 -/
 import CspuzModel.Proofs.C15Roundtrip
 import CspuzModel.Proofs.C15Term
+import CspuzModel.Spec.SerializerReenc
 import CspuzModel.Gen.PuzzleCombinators
 set_option linter.unusedVariables false
 namespace Cspuz.Ser
 open Cspuz
-
-/-! ### the class of flat bases and the items they accept -/
-
-/-- the items a leaf serializer accepts, independently of the position and of the neighbouring items -/
-def AccLeaf : Comb → PyVal → Prop
-  | .dict b _, v => v ∈ b
-  | .spaces sp _, v => v = sp
-  | .hexInt, v => ∃ n : Int, v = .int n ∧ 0 ≤ n ∧ n ≤ 4095
-  | .intSpaces _ mi _, v => ∃ n : Int, v = .int n ∧ 0 ≤ n ∧ n ≤ (mi : Int)
-  | .multiDigit b _, v => ∃ n : Int, v = .int n ∧ 0 ≤ n ∧ n < (b : Int)
-  | .yajilinClue, v => v = .str qq ∨ ∃ c n, dirOfChar c ≠ none ∧ n < 256 ∧ v = .str (c :: toBase 10 n)
-  | _, _ => False
-
-/-- leaves that consume one item (plus, for `Spaces`/`IntSpaces`, a run of items equal to the space) and never raise -/
-def flatLeaf : Comb → Bool
-  | .dict _ _ => true
-  | .spaces _ _ => true
-  | .hexInt => true
-  | .intSpaces _ _ _ => true
-  | .yajilinClue => true
-  | _ => false
-
-/-- the alternatives of a base: the elements of a `OneOf`, or the term itself -/
-def alts : Comb → List Comb
-  | .oneOf cs => cs
-  | c => [c]
-
-def flatBase : Comb → Bool
-  | .multiDigit _ _ => true
-  | .oneOf cs => cs.all flatLeaf
-  | c => flatLeaf c
-
-/-- **flat bases**: `MultiDigit`, a flat leaf, or a `OneOf` of flat leaves -/
-def FlatBase (b : Comb) : Prop := flatBase b = true
-
-/-- the items a base accepts -/
-def AccItem : Comb → PyVal → Prop
-  | .oneOf cs, v => ∃ c ∈ cs, AccLeaf c v
-  | c, v => AccLeaf c v
-
-/-- values embedded in a leaf -/
-def leafVals : Comb → List PyVal
-  | .dict b _ => b
-  | .spaces sp _ => [sp]
-  | .intSpaces sp _ _ => [sp]
-  | _ => []
-
-/-- an embedded value cannot be mistaken for a yajilin clue with a number (`"^007"`): it is not a string whose tail
-consists of decimal digits only -/
-def yajOk : PyVal → Bool
-  | .str (_ :: rest) => !(rest.all isDecimal)
-  | _ => true
-
-def isYaj : Comb → Bool
-  | .yajilinClue => true
-  | _ => false
-
-/-- decidable sufficient condition for `AccLeaf` on `bool`-free values -/
-def accLeafB : Comb → PyVal → Bool
-  | .dict b _, v => b.any (fun x => pyEq v x)
-  | .spaces sp _, v => pyEq v sp
-  | .hexInt, .int n => 0 ≤ n && n ≤ 4095
-  | .intSpaces _ mi _, .int n => 0 ≤ n && n ≤ (mi : Int)
-  | _, _ => false
-
-/-- the padding value that `IntSpaces` returns is accepted by some alternative -/
-def padOk (cs : List Comb) : Comb → Bool
-  | .intSpaces sp _ ms => ms == 0 || cs.any (fun c => accLeafB c sp)
-  | _ => true
-
-def closedAlts (cs : List Comb) : Bool :=
-  cs.all (padOk cs) && (!cs.any isYaj || cs.all (fun c => (leafVals c).all yajOk))
-
-/-- **closed bases**: whatever the decoder of one alternative returns is accepted by the serializer of some
-alternative, and no alternative's embedded value is a non-canonical yajilin clue when `YajilinClue` is present -/
-def closedBase (b : Comb) : Bool := closedAlts (alts b)
 
 namespace Reenc
 
